@@ -1,12 +1,9 @@
 (* SpecInv.v — spec-level inverse: the day number of the o-th date of a year, and the date's
    label/ordinals recovered from (year, month, day). *)
-From JV Require Import Sem Gen Spec.
+From JV Require Import Sem Gen Spec SpecX.
 From JV.Proofs Require Import SpecFacts GapFacts Cal Cmp MonthGeom Shape Month MonthSpec SpecSums Walk SpecOrd.
 Open Scope Z_scope.
 Ltac Zify.zify_post_hook ::= Z.to_euclidean_division_equations.
-
-Definition jdn_of_ordinal (c : cal) (y o : Z) : Z :=
-  if o <=? old_days c y then J0 y + o - 1 else new_start c y + (o - old_days c y) - 1.
 
 Lemma ordinal_inv c y o : ValidCal c -> 1 <= o <= year_count c y ->
   let j := jdn_of_ordinal c y o in l_year (lbl c j) = y /\ ordinal_of c j = o.
